@@ -6321,7 +6321,9 @@ static size_t ZSTD_CCtx_init_compressStream2(ZSTD_CCtx* cctx,
         params.compressionLevel = cctx->cdict->compressionLevel;
     }
     DEBUGLOG(4, "ZSTD_compressStream2 : transparent init stage");
-    if (endOp == ZSTD_e_end) cctx->pledgedSrcSizePlusOne = inSize + 1;  /* auto-determine pledgedSrcSize */
+    if ( (endOp == ZSTD_e_end)
+      && ((cctx->stableIn_notConsumed == 0) || (cctx->pledgedSrcSizePlusOne == 0)) )  /* input accepted by earlier calls : a pledge still holds */
+        cctx->pledgedSrcSizePlusOne = inSize + 1;  /* auto-determine pledgedSrcSize */
     cctx->cParamsChanged = 0;   /* this frame starts from the requested parameters : nothing to update yet */
 
     {   size_t const dictSize = prefixDict.dict
